@@ -136,6 +136,18 @@ def run(ctx):
     ctx.assumptions += ["valid-model contract V1-V5", "runs that hang at shutdown (known finding F1, multi-rank variant) are compared up to the hang"]
     runlib.lean_part(ctx, "RootSim.Props.C01Sorted", THEOREMS)
     runlib.lean_part(ctx, "RootSim.Props.PrefixUnique", THEOREMS_D)
+    # ---- wire level: size-based demultiplexing (layout measured from the real headers)
+    runlib.lean_part(ctx, "RootSim.Props.C02Wire", ["RootSim.C02.Wire.control_classified", "RootSim.C02.Wire.anti_classified",
+                                                    "RootSim.C02.Wire.event_classified", "RootSim.C02.Wire.sizes_distinct"])
+    if ctx.cc("hwire", [os.path.join(vlib.HARNESS, "hwire.c")], sanitize=False):
+        wo, wc, wr = ctx.path("wo"), ctx.path("wc"), ctx.path("wr")
+        rcw, outw = vlib.run([ctx.path("hwire"), wo, wc, wr])
+        ctx.oblige("harness-run:hwire", rcw == 0, outw[-300:])
+        if rcw == 0:
+            ctx.kdiff("wire", "wire(layout ok, classification of control/anti/event sizes for payloads 0..4096)", wo, wc)
+            for l in open(wr).read().splitlines()[:3]:
+                ctx.violation("wire-misclassified", {"input": l}, True)
+            ctx.coverage["wire_layout"] = json.loads(outw.strip().splitlines()[-1])
     srcs = [os.path.join(vlib.HARNESS, "hrun.c")] + ctx.core_sources(mpi=True)
     if not ctx.cc("hrun_mpi", srcs, mpi=True):
         return
